@@ -44,6 +44,7 @@ type Finding struct {
 	Stack   []string `json:"stack,omitempty"`
 	Observed []uint64 `json:"observed,omitempty"`
 	Params  map[string]int `json:"params,omitempty"`
+	Sched   []SchedStep `json:"sched,omitempty"`
 	Covered []string `json:"-"`
 }
 
@@ -362,6 +363,9 @@ func (e *Explorer) violation(kind, site, msg string, extra ...*smt.Term) bool {
 		return false
 	}
 	f := Finding{Kind: kind, Site: site, Msg: msg, Entry: e.Entry, Trace: e.traceString()}
+	if sched != nil && len(sched.switches) > 0 {
+		f.Sched = append([]SchedStep{}, sched.switches...)
+	}
 	i := 0
 	for _, d := range e.draws {
 		f.Names = append(f.Names, d.Name)
@@ -475,6 +479,9 @@ func (e *Explorer) witness() {
 		return
 	}
 	f := Finding{Kind: "witness", Entry: e.Entry, Trace: e.traceString()}
+	if sched != nil && len(sched.switches) > 0 {
+		f.Sched = append([]SchedStep{}, sched.switches...)
+	}
 	i := 0
 	for _, d := range e.draws {
 		f.Names = append(f.Names, d.Name)
